@@ -180,11 +180,11 @@ var curTape atomic.Pointer[rt.Tape]
 // watchdog runs outside any bubble with real time: a goroutine of the code
 // under test that never reaches a yield keeps synctest.Wait from returning.
 func watchdog(limit time.Duration, dump string) {
-	last := progress.Load()
+	last := progress.Load() + rt.GlobalSteps.Load()
 	lastChange := time.Now()
 	for {
 		time.Sleep(500 * time.Millisecond)
-		p := progress.Load()
+		p := progress.Load() + rt.GlobalSteps.Load()
 		if p != last {
 			last, lastChange = p, time.Now()
 			continue
